@@ -269,8 +269,10 @@ def instantiate_param(ex, ctx, desc):
         return ex.wrap(name)
     if kind == "url":
         fields = {"_" + p: V.sym_str(ctx, f"{name}_{p}") for p in URL_PARTS}
-        fields["_cache"] = V.VDict({}, fresh=True)   # the per-object memo is in every method's frame (C08 O2 constrains what is written)
-        return V.VObj("URL", fields, fresh=False)
+        obj = V.VObj("URL", fields, fresh=False)
+        # the per-object memo of an existing URL: any known key may be present, with its lazy value
+        obj.fields["_cache"] = V.VSymCache(obj)
+        return obj
     raise ValueError(desc)
 
 
@@ -296,6 +298,133 @@ def describe(v):
 def shape_equal(ex, st, a, b):
     """equality goal between a code value and a spec value (None vs value -> False)"""
     return ex.equal(st, a, b)
+
+
+class Lemma:
+    """A statement over the executable specifications (and contract facts) only: `fn` returns a
+    truth value that must hold for all arguments satisfying `requires`."""
+
+    def __init__(self, fn, params, requires=None, props=(), note=""):
+        self.fn = fn
+        self.qual = f"{fn.__module__}:{fn.__qualname__}"
+        self.params = params
+        self.requires = requires
+        self.props = tuple(props)
+        self.note = note
+        self.spec = None
+        self.cuts = []
+        self.raises = ()
+        self.opaque = False
+        self.ensures = None
+
+
+def verify_lemma(lemma, registry, combo_filter=None, timeout_ms=10000, rounds=3):
+    t0 = time.time()
+    res = {"function": lemma.qual, "obligations": [], "unsupported": [], "paths": 0, "pairs": 0,
+           "inlined": [], "callee_contracts": [], "combos": 0, "solver_checks": 0, "solver_time_s": 0.0,
+           "segments": 1, "merges": 0, "lemma": True}
+    alts = [make_param(None, name, ty) for name, ty in lemma.params]
+    for ci, combo in enumerate(itertools.product(*alts)):
+        if combo_filter is not None and ci not in combo_filter:
+            continue
+        label = ",".join(f"{n}={l}" for (n, _), (l, _) in zip(lemma.params, combo))
+        ex = Executor(registry, {})
+        ex.verifying = lemma.qual
+        st = St(ex)
+        st.handled = [(BaseException,)]
+        args = [to_spec_arg(instantiate_param(ex, st.ctx, d)) for _, d in combo]
+        try:
+            pre = [st]
+            if lemma.requires is not None:
+                def _pre(st0):
+                    for v, s1 in call_spec(ex, st0, ex.wrap(lemma.requires), args, {}):
+                        if isinstance(v, Raised):
+                            continue
+                        t = z3.simplify(ex.truth(s1, v))
+                        if z3.is_false(t):
+                            continue
+                        s1.assume(t)
+                        if s1.feasible():
+                            yield s1
+                pre = _pre(st)
+            n = 0
+            for s0 in pre:
+                for v, s2 in call_spec(ex, s0, ex.wrap(lemma.fn), args, {}):
+                    n += 1
+                    res["paths"] += 1
+                    g = z3.BoolVal(False) if isinstance(v, Raised) else ex.truth(s2, v)
+                    ex.oblige(s2, f"lemma:{lemma.fn.__name__}[{label}|path{n}]", "lemma", g, None, {})
+            if n:
+                res["combos"] += 1
+        except Unsupported as u:
+            res["unsupported"].append(f"{label}: {u}")
+        res["solver_checks"] += ex.sol.nchecks
+        res["solver_time_s"] += ex.sol.time
+        for ob in ex.obligations:
+            if ob.result is None:
+                try:
+                    ob.result = smt.prove(ob.snapshot, ob.goal, timeout_ms=timeout_ms, rounds=rounds)
+                except z3.Z3Exception as e:
+                    ob.result = smt.Result("unknown", reason=str(e))
+            rec = {"name": ob.name, "kind": ob.kind, "where": ob.where, "func": ob.func, "combo": label,
+                   "status": ob.result.status, "backend": ob.result.backend, "time_s": round(ob.result.time_s, 4),
+                   "ground": ob.result.n_ground, "info": ob.info}
+            if ob.result.status == "sat":
+                rec["validated"] = ob.result.validated
+                rec["why"] = ob.result.reason
+                rec["inputs"] = concretise(ob.result.model, lemma, combo)
+            res["obligations"].append(rec)
+    res["wall_s"] = round(time.time() - t0, 2)
+    res["solver_time_s"] = round(res["solver_time_s"], 2)
+    return res
+
+
+def _memo_obligations(ex, st, obj, nm):
+    """C08-O2 / C09: every entry a function leaves in the per-object memo of a URL it returns
+    must equal the value the corresponding lazy accessor computes from the stored parts."""
+    cache = obj.fields.get("_cache")
+    from contracts import spec_url
+    u = to_spec_arg(obj)
+    if any(u.fields.get(p) is None for p in URL_PARTS):
+        return
+    if isinstance(cache, V.VSymCache):
+        # a memo inherited from another URL: every key it may hold must have the same lazy value
+        # for the new parts as for the owner's parts
+        if cache.owner is obj:
+            entries = dict(cache.extra)
+        else:
+            entries = dict(cache.extra)
+            ou = to_spec_arg(cache.owner)
+            for k, fn in spec_url.MEMO_SPECS.items():
+                if k in cache.removed or k in entries:
+                    continue
+                for ov, s1 in call_spec(ex, st, ex.wrap(fn), [ou], {}):
+                    for nv, s2 in call_spec(ex, s1, ex.wrap(fn), [u], {}):
+                        try:
+                            g = z3.BoolVal(False) if isinstance(ov, Raised) != isinstance(nv, Raised) else \
+                                (z3.BoolVal(True) if isinstance(ov, Raised) else ex.equal(s2, ov, nv))
+                        except Unsupported:
+                            g = z3.BoolVal(False)
+                        ex.oblige(s2, f"memo:{k}:inherited-entry-still-valid[{nm}]", "memo", g, None, {"key": k})
+        cache_items = entries
+    elif isinstance(cache, V.VDict):
+        cache_items = cache.d
+    else:
+        return
+    for k, cv in list(cache_items.items()):
+        fn = spec_url.MEMO_SPECS.get(k)
+        if fn is None:
+            ex.oblige(st, f"memo:{k}:no-lazy-definition[{nm}]", "memo", z3.BoolVal(False), None, {})
+            continue
+        for sv, s2 in call_spec(ex, st, ex.wrap(fn), [u], {}):
+            if isinstance(sv, Raised):
+                g = z3.BoolVal(False)
+            else:
+                try:
+                    g = ex.equal(s2, cv, sv)
+                except Unsupported:
+                    g = z3.BoolVal(False)
+            ex.oblige(s2, f"memo:{k}==lazy-value[{nm}]", "memo", g, None, {"key": k})
 
 
 def _find_anchor(body, text):
@@ -362,6 +491,8 @@ def _eval_relation(ex, st, src, cenv, senv, spec_ms):
 
 def verify_contract(contract, registry, combo_filter=None, timeout_ms=10000, rounds=3, seg_filter=None):
     """Generate and discharge every obligation of one function. Returns a result dict."""
+    if isinstance(contract, Lemma):
+        return verify_lemma(contract, registry, combo_filter, timeout_ms, rounds)
     t0 = time.time()
     modname, qual = contract.qual.split(":")
     ms = ModuleSrc.get(modname)
@@ -494,6 +625,8 @@ def verify_contract(contract, registry, combo_filter=None, timeout_ms=10000, rou
                                   g = z3.BoolVal(False)
                               ex.oblige(s3, f"post:result==spec[{nm}]", "post", g, None,
                                         {"code": describe(val), "spec": describe(sval)})
+                              if isinstance(val, V.VObj) and val.cls == "URL":
+                                  _memo_obligations(ex, s3, val, nm)
                               if contract.ensures is not None:
                                   for ev, s4 in call_spec(ex, s3, ex.wrap(contract.ensures), sargs + [sval], {}):
                                       eg = z3.BoolVal(False) if isinstance(ev, Raised) else ex.truth(s4, ev)
